@@ -211,12 +211,53 @@ class Tensor:
     def __vf_getslice__(self, I, lo, hi, step):
         return index(I, self, (slice(lo, hi, step),))
 
+    def _setitem_tensor_index(self, I, key, value):
+        """t[a0, :, :, a3] = v with 1-D index tensors of one common length L (advanced indices, broadcast together) and full slices:
+        for every j < L:  t[a0[j], p, q, a3[j]] = v[j, p, q]  (advanced dimensions first in v when they are not adjacent - torch's
+        rule; here they always come first since v has shape (L, *sliced)).  Supported when one index tensor is the identity
+        arange(L), which makes j a function of the position written."""
+        key = key + [slice(None)] * (self.rank - len(key))
+        adv = [(d, k) for d, k in enumerate(key) if isinstance(k, Tensor)]
+        if any(not (isinstance(k, (Tensor, slice))) for k in key) or any(isinstance(k, slice) and (k.start, k.stop, k.step) != (None, None, None) for k in key):
+            raise Unsupported("tensor item assignment: only full slices and index tensors")
+        if any(k.rank != 1 for _, k in adv):
+            raise Unsupported("tensor item assignment with index tensors of rank other than 1")
+        L = adv[0][1].shape[0]
+        for _, k in adv[1:]:
+            I.require("setitem.index_lengths_equal", to_z3(k.shape[0]) == to_z3(L))
+        ident = None
+        kk = z3.Int(I.path.fresh_name("k_id"))
+        for d, k in adv:
+            if I.path.must(z3.Implies(z3.And(kk >= 0, kk < to_z3(L)), to_z3(k.elem([kk])) == kk)):
+                ident = d
+                break
+        if ident is None:
+            raise Unsupported("tensor item assignment without an identity index tensor")
+        for d, k in adv:
+            q = z3.Int(I.path.fresh_name("k_rng"))
+            I.require("setitem.index_in_range", z3.ForAll([q], z3.Implies(z3.And(q >= 0, q < to_z3(L)), z3.And(to_z3(k.elem([q])) >= 0, to_z3(k.elem([q])) < to_z3(self.shape[d])))))
+        val = as_tensor(value)
+        sliced = [d for d, k in enumerate(key) if isinstance(k, slice)]
+        if val.rank != 1 + len(sliced):
+            raise Unsupported("tensor item assignment: value rank")
+        old = self.elem
+
+        def elem(idx, old=old):
+            j = to_z3(lin(idx[ident]))
+            hit = z3.And(j >= 0, j < to_z3(L), *[to_z3(lin(idx[d])) == to_z3(k.elem([j])) for d, k in adv if d != ident])
+            new = val.elem([j] + [idx[d] for d in sliced])
+            o = old(idx)
+            return z3.If(hit, _real(new) if not z3.is_bool(to_z3(o) if not is_z3(o) else o) else new, _real(o) if not z3.is_bool(to_z3(o) if not is_z3(o) else o) else o)
+        self.elem = elem
+
     def __vf_setitem__(self, I, key, value):
         """t[i0, i1, ...] = v with one integer sequence (or int) per leading dimension: an in-place update of THIS tensor
         object (every holder of the object sees it): entry idx becomes v where idx matches one of the listed positions"""
         key = list(key) if isinstance(key, tuple) else [key]
         if len(key) > self.rank:
             I.raise_("IndexError", "too many indices")
+        if any(isinstance(k, Tensor) for k in key):
+            return self._setitem_tensor_index(I, key, value)
         cols = []
         for k in key:
             if isinstance(k, IntTensorConst):
@@ -965,6 +1006,85 @@ def install(I):
             if attr == "item":
                 return BoundBuiltin(lambda: self.v)
             raise Unsupported(f"0-dim tensor .{attr}")
+
+        def __vf_truth__(self, I_):
+            return I_.truth(self.v)
+
+    def einops_axes(side):
+        """'a (b c) d' -> [['a'], ['b', 'c'], ['d']]"""
+        out, cur, depth = [], None, 0
+        for tok in side.replace("(", " ( ").replace(")", " ) ").split():
+            if tok == "(":
+                cur = []
+            elif tok == ")":
+                out.append(cur)
+                cur = None
+            elif cur is not None:
+                cur.append(tok)
+            else:
+                out.append([tok])
+        return out
+
+    def rearrange(I, a, k):
+        """einops.rearrange / repeat (documented contract) for patterns whose left side has no groups: the axes are permuted into
+        the order of the right side, new axes (given by keyword) are broadcast, groups are flattened (first name major)"""
+        x, pattern = a[0], a[1]
+        lhs, rhs = [s.strip() for s in pattern.split("->")]
+        L, R = einops_axes(lhs), einops_axes(rhs)
+        if any(len(g) != 1 for g in L) or len(L) != x.rank:
+            raise Unsupported("einops pattern with groups on the left side")
+        names = [g[0] for g in L]
+        flat = [n for g in R for n in g]
+        new = [n for n in flat if n not in names]
+        if any(n not in k for n in new) or sorted(n for n in flat if n in names) != sorted(names):
+            raise Unsupported("einops pattern not understood")
+        t = x
+        for n in new:  # append the new axes, then permute
+            t = unsqueeze(I, t, t.rank)
+            t = expand(I, t, *(list(t.shape[:-1]) + [k[n]]))
+        order = names + new
+        t = permute(I, t, [order.index(n) for n in flat])
+        pos = 0
+        for g in R:
+            if len(g) > 1:
+                t = flatten(I, t, pos, pos + len(g) - 1)
+            pos += 1
+        return t
+    ext["einops.rearrange"] = rearrange
+    ext["einops.repeat"] = rearrange
+
+    def gather(I, a, k):
+        x, dim, idx = a[0], k.get("dim", a[1] if len(a) > 1 else None), k.get("index", a[2] if len(a) > 2 else None)
+        d = ndim(dim, x.rank, I)
+        if idx.rank != x.rank:
+            I.raise_("RuntimeError", "gather: index rank")
+        for j in range(x.rank):
+            if j != d:
+                I.require("gather.index_within_source", to_z3(idx.shape[j]) <= to_z3(x.shape[j]))
+        return Tensor(idx.shape, lambda ix: x.elem(ix[:d] + [idx.elem(ix)] + ix[d + 1:]), x.dtype, idx.comps)
+    ext["torch.gather"] = gather
+
+    class CategoricalDist:
+        """torch.distributions.Categorical(probs | logits of shape (*batch, M)).sample(size): integers in [0, M) of shape
+        (*size, *batch) (assumed contract); the draw itself is a fresh uninterpreted leaf"""
+
+        def __init__(self, p):
+            self.p = p
+
+        def __vf_getattr__(self, I_, attr):
+            if attr == "sample":
+                def sample(size=()):
+                    dims = list(B.iterate(I, size)) + list(self.p.shape[:-1])
+                    t = leaf(I, "categorical_draw", dims, "long")
+                    ks = [z3.Int(I.path.fresh_name("k_cd")) for _ in dims]
+                    I.path.assume(z3.ForAll(ks, z3.And(t.elem(ks) >= 0, t.elem(ks) < to_z3(self.p.shape[-1])), patterns=[t.elem(ks)]))
+                    I.__dict__.setdefault("categorical_draws", []).append((t, self.p))
+                    return t
+                return BoundBuiltin(sample)
+            raise Unsupported(f"Categorical.{attr}")
+    ext["torch.distributions.Categorical"] = lambda I, a, k: CategoricalDist(k.get("probs", k.get("logits", a[0] if a else None)))
+    ext["torch.allclose"] = lambda I, a, k: z3.Bool(I.path.fresh_name("allclose"))
+    ext["torch.ones"] = lambda I, a, k: Tensor(list(B.iterate(I, a[0])) if a and not is_intlike(a[0]) else [x for x in a], lambda idx: z3.RealVal(1), "float")
 
     def any_(I, a, k):
         t = as_tensor(a[0])
